@@ -659,6 +659,52 @@ def literal_keys(rng, B, size_hint=None):
     return a.assemble(), keys
 
 
+def typed_widths(rng):
+    """Whole-word values whose reported *width* comes from a constant in the code (SIGNEXTEND size, CALLDATACOPY /
+    CODECOPY / RETURNDATACOPY length, BYTE index, masks), with the constant taken from a hostile set and placed in
+    either operand position, stored whole into a constant slot (directly or through a mapping / array element)."""
+    a = evm.Asm()
+    consts = [0, 1, 7, 8, 15, 30, 31, 32, 33, 64, 127, 128, 255, 256, 257, 300, 511, 512, 1 << 16, (1 << 64) - 1,
+              1 << 64, 1 << 255, evm.M256]
+    feats = set()
+    for slot in range(rng.randint(1, 5)):
+        style = rng.choice(["signext-const-top", "signext-const-below", "signext-both-const", "copy-len", "byte",
+                            "mask-any", "signext-of-sload", "signext-then-mask"])
+        feats.add(style)
+        c = rng.choice(consts)
+        if c > 256:
+            feats.add("const>256")
+        src = rng.choice([[4, "CALLDATALOAD"], ["CALLER"], [slot + 7, "SLOAD"], ["CALLVALUE"]])
+        if style == "signext-const-top":
+            a.emit(src, ("push", c, None), "SIGNEXTEND")
+        elif style == "signext-const-below":
+            a.emit(("push", c, None), src, "SIGNEXTEND")
+        elif style == "signext-both-const":
+            a.emit(("push", c, None), ("push", rng.choice(consts), None), "SIGNEXTEND")
+        elif style == "signext-of-sload":
+            a.emit(("push", c, None), slot, "SLOAD", "SIGNEXTEND")
+        elif style == "signext-then-mask":
+            a.emit(("push", c, None), src, "SIGNEXTEND", ("push", (1 << rng.choice([8, 64, 160, 256])) - 1, None), "AND")
+        elif style == "copy-len":
+            opn = rng.choice(["CALLDATACOPY", "CODECOPY", "RETURNDATACOPY"])
+            a.emit(("push", c if c < (1 << 16) else rng.choice([33, 64, 300]), None), rng.choice([0, 4, 36]),
+                   rng.choice([0, 32, 5]), opn, rng.choice([0, 32, 5, 64]), "MLOAD")
+        elif style == "byte":
+            a.emit(src, ("push", c, None), "BYTE")
+        else:
+            a.emit(src, ("push", rng.choice(consts), None), "AND")
+        how = rng.random()
+        if how < 0.6:
+            a.emit(slot, "SSTORE")
+        elif how < 0.8:
+            # value of a mapping element
+            a.emit(36, "CALLDATALOAD", 0, "MSTORE", slot, 32, "MSTORE", 64, 0, "SHA3", "SSTORE")
+        else:
+            a.emit(slot, 0, "MSTORE", 32, 0, "SHA3", 36, "CALLDATALOAD", "ADD", "SSTORE")
+    a.emit("STOP")
+    return a.assemble(), feats
+
+
 def mask_shift(rng):
     """Mask-and-shift code over a few slots with shift amounts and mask positions anywhere in 0..2^256."""
     a = evm.Asm()
